@@ -55,6 +55,16 @@ def A(x):
     return np.array(x, dtype=float)
 
 
+def _quiet(f):
+    def g(x):
+        with np.errstate(all="ignore"):
+            return float(f(x))   # non-finite arguments give nan/inf instead of raising
+    return g
+
+
+_sin, _cos, _exp, _tanh = _quiet(np.sin), _quiet(np.cos), _quiet(np.exp), _quiet(np.tanh)
+
+
 # --------------------------------------------------------------------------- densities
 
 class Density:
@@ -79,19 +89,19 @@ class Density:
             return math.inf
         v = 0.5 * q @ self.A @ q + self.b @ q + 0.25 * np.sum(self.c * q**4)
         for a, w, phi in self.ridges:
-            v += a * math.sin(w @ q + phi)
+            v += a * _sin(w @ q + phi)
         return float(v)
 
     def grad(self, q):
         g = self.A @ q + self.b + self.c * q**3
         for a, w, phi in self.ridges:
-            g = g + a * math.cos(w @ q + phi) * w
+            g = g + a * _cos(w @ q + phi) * w
         return g
 
     def hess(self, q):
         H = self.A + np.diag(3 * self.c * q**2)
         for a, w, phi in self.ridges:
-            H = H - a * math.sin(w @ q + phi) * np.outer(w, w)
+            H = H - a * _sin(w @ q + phi) * np.outer(w, w)
         return H
 
     def mtp(self, q):
@@ -111,7 +121,7 @@ class MTP:
         d, q = self.dens, self.q
         out = 6 * d.c * q * np.diag(m)
         for a, w, phi in d.ridges:
-            out = out - a * math.cos(w @ q + phi) * (w @ m @ w) * w
+            out = out - a * _cos(w @ q + phi) * (w @ m @ w) * w
         return out
 
 
@@ -137,7 +147,7 @@ class ScalarMetricFn:
         self.s0, self.u = spec["s0"], A(spec["u"])
 
     def value(self, q):
-        return self.s0 * math.exp(self.u @ q)
+        return self.s0 * _exp(self.u @ q)
 
     def vjp(self, q):
         return _VJP(_ScalarVJP(self.value(q), self.u))
@@ -194,7 +204,7 @@ class CholMetricFn:
     def value(self, q):
         L = self.L0.copy()
         for B, w in zip(self.Bs, self.ws):
-            L = L + B * math.tanh(w @ q)
+            L = L + B * _tanh(w @ q)
         return L
 
     def vjp(self, q):
@@ -212,7 +222,7 @@ class _CholVJP:
     def __call__(self, v):
         out = np.zeros_like(self.q)
         for B, w in zip(self.Bs, self.ws):
-            out = out + np.sum(v * B) * (1 - math.tanh(w @ self.q) ** 2) * w
+            out = out + np.sum(v * B) * (1 - _tanh(w @ self.q) ** 2) * w
         return out
 
 
@@ -228,7 +238,7 @@ class DenseMetricFn:
     def value(self, q):
         M = self.M0.copy()
         for al, v, w in self.terms:
-            M = M + al * np.outer(v, v) * (1 + math.sin(w @ q))
+            M = M + al * np.outer(v, v) * (1 + _sin(w @ q))
         return M
 
     def vjp(self, q):
@@ -245,7 +255,7 @@ class _DenseVJP:
     def __call__(self, V):
         out = np.zeros_like(self.q)
         for al, v, w in self.terms:
-            out = out + al * (v @ V @ v) * math.cos(w @ self.q) * w
+            out = out + al * (v @ V @ v) * _cos(w @ self.q) * w
         return out
 
 
@@ -284,14 +294,14 @@ class Constraint:
         return any(np.any(Q != 0) or beta != 0 for Q, _, _, beta, _ in self.rows)
 
     def value(self, q):
-        return np.array([0.5 * q @ Q @ q + r @ q - s + beta * math.sin(u @ q)
+        return np.array([0.5 * q @ Q @ q + r @ q - s + beta * _sin(u @ q)
                          for Q, r, s, beta, u in self.rows])
 
     def jac(self, q):
-        return np.array([Q @ q + r + beta * math.cos(u @ q) * u for Q, r, s, beta, u in self.rows])
+        return np.array([Q @ q + r + beta * _cos(u @ q) * u for Q, r, s, beta, u in self.rows])
 
     def hessians(self, q):
-        return [Q - beta * math.sin(u @ q) * np.outer(u, u) for Q, r, s, beta, u in self.rows]
+        return [Q - beta * _sin(u @ q) * np.outer(u, u) for Q, r, s, beta, u in self.rows]
 
     def mhp(self, q):
         return _MHP(self.hessians(q))
